@@ -146,6 +146,16 @@ Theorem layered_layer_unique : forall ls z l l', connected ls -> In l ls -> In l
 Proof. exact layer_unique. Qed.
 Print Assumptions layered_layer_unique.
 
+(* the dispatch of LayeredIce.index is total on connected stacks: above the top edge the index
+   above, below the bottom edge the index below, and every depth in between (both edges
+   included) is served by a layer -- the error branch is unreachable *)
+Theorem layered_index_dispatch_total : forall l0 r z, connected (l0 :: r) ->
+  (z > l_hi l0 -> index_source (l0 :: r) z = Above) /\
+  (z < l_lo (last r l0) -> index_source (l0 :: r) z = Below) /\
+  (l_lo (last r l0) <= z <= l_hi l0 -> exists t, index_source (l0 :: r) z = FromLayer t).
+Proof. exact index_source_total. Qed.
+Print Assumptions layered_index_dispatch_total.
+
 (* non-vacuity: the shipped default parameters satisfy the hypotheses *)
 Theorem default_antarctic_wf : wf default_antarctic.
 Proof. exact default_wf. Qed.
